@@ -26,9 +26,13 @@ struct Big {
 #endif
 #if VH_ORDER == 0
 using Protos = eventpp::HeterTuple<void(), void(int), void(const std::string &), void(const Big &), void(long)>;
-#else
+#elif VH_ORDER == 1
 // another listing order: the overlapping prototypes void(long) / void(int) swapped, Big first
 using Protos = eventpp::HeterTuple<void(const Big &), void(long), void(), void(int), void(const std::string &)>;
+#else
+// a prototype taking a non-const lvalue reference, listed before the const one: it is selected by callbacks
+// taking Big & or const Big &, and by calls passing a Big lvalue (argument kind 6), never by a temporary
+using Protos = eventpp::HeterTuple<void(), void(Big &), void(int), void(const std::string &), void(const Big &)>;
 #endif
 static const int NP = 5;
 
@@ -41,12 +45,16 @@ struct World;
 static World * gw = nullptr;
 static void called(int key, long hid, long cb, const std::string & val);
 
+// a listener whose callback id ends in 9, called with a value v with v % 4 != 3, enqueues (key, int, v + 1)
+// while it runs (Util/HeterSpawn.lean, `harnessSpawn`)
+static void maybeSpawn(int key, long cb, long v);
 // callback kinds
-struct K0 { int key; long hid, cb; void operator()() const { called(key, hid, cb, "-"); } };
-struct K1 { int key; long hid, cb; void operator()(int v) const { called(key, hid, cb, std::to_string(v)); } };
-struct K2 { int key; long hid, cb; void operator()(const std::string & v) const { called(key, hid, cb, v); } };
-struct K3 { int key; long hid, cb; void operator()(const Big & v) const { called(key, hid, cb, v.ok() ? "B" + std::to_string(v.v) : "corrupt"); } };
-struct K4 { int key; long hid, cb; void operator()(long v) const { called(key, hid, cb, std::to_string(v)); } };
+struct K0 { int key; long hid, cb; void operator()() const { called(key, hid, cb, "-"); maybeSpawn(key, cb, 0); } };
+struct K1 { int key; long hid, cb; void operator()(int v) const { called(key, hid, cb, std::to_string(v)); maybeSpawn(key, cb, v); } };
+struct K2 { int key; long hid, cb; void operator()(const std::string & v) const { called(key, hid, cb, v); maybeSpawn(key, cb, std::atol(v.c_str() + 1)); } };
+struct K3 { int key; long hid, cb; void operator()(const Big & v) const { called(key, hid, cb, v.ok() ? "B" + std::to_string(v.v) : "corrupt"); maybeSpawn(key, cb, v.v); } };
+struct K4 { int key; long hid, cb; void operator()(long v) const { called(key, hid, cb, std::to_string(v)); maybeSpawn(key, cb, v); } };
+struct K5 { int key; long hid, cb; void operator()(Big & v) const { called(key, hid, cb, v.ok() ? "B" + std::to_string(v.v) : "corrupt"); maybeSpawn(key, cb, v.v); } };
 
 template <typename Proto> struct ProtoArgs;
 template <typename R, typename ...A> struct ProtoArgs<R(A...)> {
@@ -74,6 +82,9 @@ struct World {
 static void called(int key, long hid, long cb, const std::string & val) {
 	gw->out.push_back("ev call " + std::to_string(key) + " " + std::to_string(hid) + " " + std::to_string(cb) + " " + val);
 }
+static void maybeSpawn(int key, long cb, long v) {
+	if(cb % 10 == 9 && v >= 0 && v % 4 != 3) gw->q.enqueue(key, (int)(v + 1));
+}
 static void predCalled(const char * kind, const std::string & val) { gw->out.push_back(std::string("ev pred ") + kind + " " + val); }
 bool F0::operator()() const { predCalled("0", "-"); return test(0); }
 bool F1::operator()(int v) const { predCalled("1", std::to_string(v)); return test(v); }
@@ -87,12 +98,16 @@ static void printMatrix() {
 	std::cout << "cbrow 2" << M::cbRow<K2>() << " sel " << FindPrototypeByCallable<Protos, K2>::index << "\n";
 	std::cout << "cbrow 3" << M::cbRow<K3>() << " sel " << FindPrototypeByCallable<Protos, K3>::index << "\n";
 	std::cout << "cbrow 4" << M::cbRow<K4>() << " sel " << FindPrototypeByCallable<Protos, K4>::index << "\n";
+#if VH_ORDER == 2
+	std::cout << "cbrow 5" << M::cbRow<K5>() << " sel " << FindPrototypeByCallable<Protos, K5>::index << "\n";
+#endif
 	std::cout << "argrow 0" << M::argRow<>() << " sel " << FindPrototypeByArgs<Protos>::index << "\n";
 	std::cout << "argrow 1" << M::argRow<int>() << " sel " << FindPrototypeByArgs<Protos, int>::index << "\n";
 	std::cout << "argrow 2" << M::argRow<std::string>() << " sel " << FindPrototypeByArgs<Protos, std::string>::index << "\n";
 	std::cout << "argrow 3" << M::argRow<Big>() << " sel " << FindPrototypeByArgs<Protos, Big>::index << "\n";
 	std::cout << "argrow 4" << M::argRow<long>() << " sel " << FindPrototypeByArgs<Protos, long>::index << "\n";
 	std::cout << "argrow 5" << M::argRow<short>() << " sel " << FindPrototypeByArgs<Protos, short>::index << "\n";
+	std::cout << "argrow 6" << M::argRow<Big &>() << " sel " << FindPrototypeByArgs<Protos, Big &>::index << "\n";
 	std::cout << "predrow 0" << M::cbRow<F0>() << "\n";
 	std::cout << "predrow 1" << M::cbRow<F1>() << "\n";
 	std::cout << "predrow 2" << M::cbRow<F2>() << "\n";
@@ -124,6 +139,9 @@ int main(int argc, char ** argv) {
 			case 1: h = w->q.appendListener(key, K1{key, hid, cb}); break;
 			case 2: h = w->q.appendListener(key, K2{key, hid, cb}); break;
 			case 3: h = w->q.appendListener(key, K3{key, hid, cb}); break;
+#if VH_ORDER == 2
+			case 5: h = w->q.appendListener(key, K5{key, hid, cb}); break;
+#endif
 			default: h = w->q.appendListener(key, K4{key, hid, cb}); break;
 			}
 			w->handles.push_back(h);
@@ -143,6 +161,7 @@ int main(int argc, char ** argv) {
 			case 2: d ? w->q.dispatch(key, std::string("s") + std::to_string(v)) : w->q.enqueue(key, std::string("s") + std::to_string(v)); break;
 			case 3: d ? w->q.dispatch(key, Big(v)) : w->q.enqueue(key, Big(v)); break;
 			case 4: d ? w->q.dispatch(key, (long)v) : w->q.enqueue(key, (long)v); break;
+			case 6: { Big lv(v); d ? w->q.dispatch(key, lv) : w->q.enqueue(key, lv); break; }
 			default: d ? w->q.dispatch(key, (short)v) : w->q.enqueue(key, (short)v); break;
 			}
 			w->res("unit");
